@@ -423,7 +423,8 @@ NATURAL = ["missing_input", "empty_input", "garbage_input", "binary_input", "no_
            "conflicting_clean_userff", "only_waters_dropped", "ter_only", "ligand_partial_nonintegral",
            "ligand_partial_nonintegral", "nonintegral_userff_large", "nonintegral_userff_large",
            "nonintegral_userff_terminal_nucleotide", "nonintegral_userff_terminal_nucleotide",
-           "corrupt_coordinate_field", "corrupt_coordinate_field"]
+           "corrupt_coordinate_field", "corrupt_coordinate_field",
+           "usernames_points_to_missing_residue", "usernames_points_to_missing_residue"]
 
 
 def good_text(rng):
@@ -519,6 +520,22 @@ def natural(spec, rng):
         col = rng.choice([30, 38, 46])
         lines[k] = lines[k][:col] + bad + lines[k][col + 8:]
         text = "\n".join(lines)
+    elif f == "usernames_points_to_missing_residue":
+        # a user names file (bundled names, one plain <useresname> edited) that maps a residue onto a residue the
+        # parameter file does not define: an unusable names / parameter-file combination
+        import re
+        base = rng.choice(["PARSE", "CHARMM"])   # the bundled names files with plain <useresname> rules
+        names = (common.REPO / "pdb2pqr" / "dat" / f"{base}.names").read_text(encoding="utf-8")
+        plain = [mo for mo in re.finditer(r"<useresname>([^<$]+)</useresname>", names)]
+        mo = rng.choice(plain)
+        ghost = rng.choice(["TIP3X", "ZZQ", "QQ9", mo.group(1) + "X"])
+        extra = {"u.names": names[:mo.start(1)] + ghost + names[mo.end(1):]}
+        opts = [f"--ff={base}", "--usernames={dir}/u.names"] + rng.choice([[], ["--nodebump", "--noopt"]])
+        if rng.random() < 0.5:
+            pep = S.peptide(["ALA", "SER", "LYS", "GLY"], rng)
+            wat = [{"resn": "HOH", "kind": "wat", "atoms": [("O", np.array([20.0 + 3.1 * k, 20.0, 20.0]))]} for k in range(3)]
+            its, _ = S.assemble([{"id": "A", "start": 1, "residues": pep}, {"id": "W", "start": 1, "residues": wat}])
+            text = pdbfmt.to_text(its)
     elif f == "garbage_userff":
         extra = {"u.dat": "ALA CB notanumber 1.0\n", "u.names": amber_names}
         opts = ["--userff={dir}/u.dat", "--usernames={dir}/u.names"]
